@@ -1,101 +1,717 @@
-//! temporary probe (replaced by the C06 correspondence)
-use samyama::graph::{EdgeType, GraphStore, Label, NodeId, PropertyValue};
+//! C06 — graph store read views vs the graph that was built: the real `GraphStore` against the
+//! Lean model `SgModel.Store` (driver `drv_store`), and the executable specification
+//! (`specObs` / `specStep`) evaluated on the implementation's observations after EVERY step.
+//!
+//! Ops name entities by handle (creation ordinal); the harness resolves a handle to the id the
+//! real store returned (a dead handle resolves to its last id, so stale ids are probed too).
+use samyama::graph::{EdgeId, EdgeType, GraphError, GraphStore, Label, NodeId, PropertyMap, PropertyValue};
+use serde_json::json;
+use std::panic::{catch_unwind, AssertUnwindSafe};
+use vharness::{driver, Args, Known, Report, Rng};
+
+#[derive(Clone, Debug, PartialEq)]
+enum Op {
+    MkN(u8),
+    MkNP(u8, u8, u8),
+    MkNS(u8),
+    MkE(usize, usize, u8),
+    MkEP(usize, usize, u8, u8, u8),
+    MkES(usize, usize, u8),
+    DelE(usize),
+    DelN(usize),
+    AddL(usize, u8),
+    RmL(usize, u8),
+    SetNP(usize, u8, u8),
+    RmNP(usize, u8),
+    SetEP(usize, u8, u8),
+    RmEP(usize, u8),
+    Compact,
+    Finish,
+    Clear,
+}
+
+fn kind(op: &Op) -> &'static str {
+    match op {
+        Op::MkN(..) => "mkN", Op::MkNP(..) => "mkNP", Op::MkNS(..) => "mkNS", Op::MkE(..) => "mkE",
+        Op::MkEP(..) => "mkEP", Op::MkES(..) => "mkES", Op::DelE(..) => "delE", Op::DelN(..) => "delN",
+        Op::AddL(..) => "addL", Op::RmL(..) => "rmL", Op::SetNP(..) => "setNP", Op::RmNP(..) => "rmNP",
+        Op::SetEP(..) => "setEP", Op::RmEP(..) => "rmEP", Op::Compact => "compact", Op::Finish => "finish",
+        Op::Clear => "clear",
+    }
+}
+
+/// handle-level text (corpus / replay format)
+fn render_h(ops: &[Op]) -> String {
+    ops.iter()
+        .map(|op| match op {
+            Op::MkN(l) => format!("mkN.{}", l),
+            Op::MkNP(l, k, v) => format!("mkNP.{}.{}.{}", l, k, v),
+            Op::MkNS(l) => format!("mkNS.{}", l),
+            Op::MkE(a, b, t) => format!("mkE.{}.{}.{}", a, b, t),
+            Op::MkEP(a, b, t, k, v) => format!("mkEP.{}.{}.{}.{}.{}", a, b, t, k, v),
+            Op::MkES(a, b, t) => format!("mkES.{}.{}.{}", a, b, t),
+            Op::DelE(e) => format!("delE.{}", e),
+            Op::DelN(n) => format!("delN.{}", n),
+            Op::AddL(n, l) => format!("addL.{}.{}", n, l),
+            Op::RmL(n, l) => format!("rmL.{}.{}", n, l),
+            Op::SetNP(n, k, v) => format!("setNP.{}.{}.{}", n, k, v),
+            Op::RmNP(n, k) => format!("rmNP.{}.{}", n, k),
+            Op::SetEP(e, k, v) => format!("setEP.{}.{}.{}", e, k, v),
+            Op::RmEP(e, k) => format!("rmEP.{}.{}", e, k),
+            Op::Compact => "compact".into(),
+            Op::Finish => "finish".into(),
+            Op::Clear => "clear".into(),
+        })
+        .collect::<Vec<_>>()
+        .join(";")
+}
+
+fn parse_h(s: &str) -> Option<Vec<Op>> {
+    let mut out = vec![];
+    for p in s.split(';') {
+        let f: Vec<&str> = p.split('.').collect();
+        let n = |i: usize| -> Option<usize> { f.get(i)?.parse().ok() };
+        let b = |i: usize| -> Option<u8> { f.get(i)?.parse().ok() };
+        out.push(match f[0] {
+            "mkN" => Op::MkN(b(1)?),
+            "mkNP" => Op::MkNP(b(1)?, b(2)?, b(3)?),
+            "mkNS" => Op::MkNS(b(1)?),
+            "mkE" => Op::MkE(n(1)?, n(2)?, b(3)?),
+            "mkEP" => Op::MkEP(n(1)?, n(2)?, b(3)?, b(4)?, b(5)?),
+            "mkES" => Op::MkES(n(1)?, n(2)?, b(3)?),
+            "delE" => Op::DelE(n(1)?),
+            "delN" => Op::DelN(n(1)?),
+            "addL" => Op::AddL(n(1)?, b(2)?),
+            "rmL" => Op::RmL(n(1)?, b(2)?),
+            "setNP" => Op::SetNP(n(1)?, b(2)?, b(3)?),
+            "rmNP" => Op::RmNP(n(1)?, b(2)?),
+            "setEP" => Op::SetEP(n(1)?, b(2)?, b(3)?),
+            "rmEP" => Op::RmEP(n(1)?, b(2)?),
+            "compact" => Op::Compact,
+            "finish" => Op::Finish,
+            "clear" => Op::Clear,
+            _ => return None,
+        });
+    }
+    Some(out)
+}
+
+/// the harness' own bookkeeping: which handles are live, which relationships are frozen;
+/// used by the generators (preconditions) and by the non-triviality rule
+#[derive(Clone, Default)]
+struct Shadow {
+    nodes: Vec<bool>,
+    edges: Vec<(usize, usize, bool, bool)>, // src handle, tgt handle, live, frozen
+    pending: bool,
+    stage: u8, // 0 → compaction of ≥1 live rel → 1 → delete of a frozen rel/node → 2 → create → 3
+    compactions: u64,
+    frozen_deletes: u64,
+    creates_after: u64,
+    segments: u64,
+}
+
+impl Shadow {
+    fn live_n(&self, h: usize) -> bool { self.nodes.get(h).copied().unwrap_or(false) }
+    fn live_e(&self, h: usize) -> bool { self.edges.get(h).map(|e| e.2).unwrap_or(false) }
+    fn n_live_nodes(&self) -> usize { self.nodes.iter().filter(|x| **x).count() }
+    fn n_live_edges(&self) -> usize { self.edges.iter().filter(|x| x.2).count() }
+    /// is the op inside the API's preconditions in this state?
+    fn allowed(&self, op: &Op) -> bool {
+        match op {
+            Op::MkES(a, b, _) => self.live_n(*a) && self.live_n(*b),
+            Op::MkE(a, b, _) | Op::MkEP(a, b, ..) => *a < self.nodes.len() && *b < self.nodes.len(),
+            Op::SetNP(n, ..) => self.live_n(*n),
+            Op::SetEP(e, ..) => self.live_e(*e),
+            Op::DelE(e) | Op::RmEP(e, _) => *e < self.edges.len(),
+            Op::DelN(n) | Op::AddL(n, _) | Op::RmL(n, _) | Op::RmNP(n, _) => *n < self.nodes.len(),
+            _ => true,
+        }
+    }
+    fn created(&mut self) {
+        if self.stage == 2 { self.stage = 3; }
+        if self.stage >= 2 { self.creates_after += 1; }
+    }
+    fn kill_edge(&mut self, h: usize) {
+        if self.edges[h].2 {
+            self.edges[h].2 = false;
+            if self.edges[h].3 {
+                self.frozen_deletes += 1;
+                if self.stage == 1 { self.stage = 2; }
+            }
+        }
+    }
+    fn apply(&mut self, op: &Op) {
+        match op {
+            Op::MkN(_) | Op::MkNP(..) | Op::MkNS(_) => { self.nodes.push(true); self.created(); }
+            Op::MkE(a, b, _) | Op::MkEP(a, b, ..) | Op::MkES(a, b, _) => {
+                let ok = self.live_n(*a) && self.live_n(*b);
+                self.edges.push((*a, *b, ok, false));
+                if ok { self.created(); }
+                if ok && matches!(op, Op::MkES(..)) { self.pending = true; }
+            }
+            Op::DelE(e) => self.kill_edge(*e),
+            Op::DelN(n) => {
+                if self.live_n(*n) {
+                    self.nodes[*n] = false;
+                    for h in 0..self.edges.len() {
+                        if self.edges[h].0 == *n || self.edges[h].1 == *n { self.kill_edge(h); }
+                    }
+                }
+            }
+            Op::Compact | Op::Finish => {
+                let mut any = false;
+                for e in self.edges.iter_mut() {
+                    if e.2 && !e.3 { e.3 = true; any = true; }
+                }
+                if any {
+                    self.compactions += 1;
+                    self.segments += 1;
+                    if self.stage == 0 { self.stage = 1; }
+                }
+                if matches!(op, Op::Finish) { self.pending = false; }
+            }
+            Op::Clear => {
+                for n in self.nodes.iter_mut() { *n = false; }
+                for e in self.edges.iter_mut() { e.2 = false; }
+                self.pending = false;
+                self.segments = 0;
+            }
+            _ => {}
+        }
+    }
+}
+
+fn lab(l: u8) -> Label { Label::new(format!("L{}", l)) }
+fn ety(t: u8) -> EdgeType { EdgeType::new(format!("T{}", t)) }
+fn key(k: u8) -> String { format!("k{}", k) }
+fn tag(s: &str) -> u64 { s[1..].parse().unwrap_or(99) }
+
+fn show_props(m: &PropertyMap) -> String {
+    let mut v: Vec<(u64, String)> = m
+        .iter()
+        .map(|(k, v)| (tag(k), match v { PropertyValue::Integer(i) => i.to_string(), other => format!("?{:?}", other) }))
+        .collect();
+    v.sort();
+    v.iter().map(|(k, v)| format!("{}={}", k, v)).collect::<Vec<_>>().join("+")
+}
+fn show_col(v: PropertyValue) -> String {
+    match v { PropertyValue::Null => "_".into(), PropertyValue::Integer(i) => i.to_string(), o => format!("?{:?}", o) }
+}
+fn set_txt(mut v: Vec<u64>) -> String {
+    v.sort();
+    v.iter().map(|x| x.to_string()).collect::<Vec<_>>().join(",")
+}
+fn row_txt(mut v: Vec<(u64, u64)>) -> String {
+    v.sort();
+    v.iter().map(|(a, b)| format!("{}.{}", a, b)).collect::<Vec<_>>().join(",")
+}
+
+/// the full `observe_at` dump of the real store, in the text layout of the Lean `showObs`
+fn dump(g: &GraphStore, ret: &str, p: u64, pending: bool) -> String {
+    let ids: Vec<u64> = (0..=p).collect();
+    let types = [0u8, 1u8];
+    let mut f: Vec<String> = vec![ret.to_string()];
+    // nodes
+    let mut nodes = vec![];
+    for &n in &ids {
+        if let Some(node) = g.get_node(NodeId::new(n)) {
+            let mut ls: Vec<u64> = node.labels.iter().map(|l| tag(l.as_str())).collect();
+            ls.sort();
+            let idtxt = if node.id.as_u64() == n { n } else { 900 + n };
+            nodes.push(format!("{}:{}:{}", idtxt, ls.iter().map(|x| x.to_string()).collect::<Vec<_>>().join("."), show_props(&node.properties)));
+        }
+    }
+    f.push(nodes.join(","));
+    // edges
+    let mut es = g.all_edges();
+    es.sort_by_key(|e| e.id.as_u64());
+    f.push(es.iter().map(|e| format!("{}:{}:{}:{}:{}", e.id.as_u64(), e.source.as_u64(), e.target.as_u64(), tag(e.edge_type.as_str()), show_props(&e.properties))).collect::<Vec<_>>().join(","));
+    f.push(g.node_count().to_string());
+    f.push(g.edge_count().to_string());
+    // get_edge (has_edge / get_edge_endpoints / get_edge_type must agree with it)
+    f.push(ids.iter().map(|&e| {
+        let ge = g.get_edge(EdgeId::new(e));
+        let consistent = g.has_edge(EdgeId::new(e)) == ge.is_some()
+            && g.get_edge_endpoints(EdgeId::new(e)) == ge.as_ref().map(|x| (x.source, x.target))
+            && g.get_edge_type(EdgeId::new(e)) == ge.as_ref().map(|x| x.edge_type.clone());
+        match ge {
+            Some(x) if consistent => format!("{}:{}:{}:{}", x.source.as_u64(), x.target.as_u64(), tag(x.edge_type.as_str()), show_props(&x.properties)),
+            None if consistent => "_".into(),
+            _ => "777:777:7:".into(),
+        }
+    }).collect::<Vec<_>>().join("/"));
+    // list reads
+    let edge_ids = |v: Vec<samyama::graph::Edge>| -> Vec<u64> {
+        v.iter().map(|e| {
+            let same = g.get_edge(e.id).map(|x| (x.source, x.target, x.edge_type.clone(), x.properties.clone()))
+                == Some((e.source, e.target, e.edge_type.clone(), e.properties.clone()));
+            if same { e.id.as_u64() } else { 900 + e.id.as_u64() }
+        }).collect()
+    };
+    f.push(ids.iter().map(|&n| {
+        let mut v = edge_ids(g.get_outgoing_edges(NodeId::new(n)));
+        let t: Vec<u64> = g.get_outgoing_edge_targets(NodeId::new(n)).iter().map(|x| x.0.as_u64()).collect();
+        if set_txt(t) != set_txt(v.clone()) { v.push(998); }
+        set_txt(v)
+    }).collect::<Vec<_>>().join("/"));
+    f.push(ids.iter().map(|&n| {
+        let mut v = edge_ids(g.get_incoming_edges(NodeId::new(n)));
+        let t: Vec<u64> = g.get_incoming_edge_sources(NodeId::new(n)).iter().map(|x| x.0.as_u64()).collect();
+        if set_txt(t) != set_txt(v.clone()) { v.push(998); }
+        set_txt(v)
+    }).collect::<Vec<_>>().join("/"));
+    let nb = |n: u64, out: bool, filt: Option<&[u16]>| -> Vec<(u64, u64)> {
+        let mut v = vec![];
+        if out { g.for_each_outgoing_neighbor(NodeId::new(n), filt, |t, e| v.push((t.as_u64(), e.as_u64()))); }
+        else { g.for_each_incoming_neighbor(NodeId::new(n), filt, |t, e| v.push((t.as_u64(), e.as_u64()))); }
+        v
+    };
+    f.push(ids.iter().map(|&n| row_txt(nb(n, true, None))).collect::<Vec<_>>().join("/"));
+    f.push(ids.iter().map(|&n| row_txt(nb(n, false, None))).collect::<Vec<_>>().join("/"));
+    for out in [true, false] {
+        f.push(ids.iter().map(|&n| {
+            types.iter().map(|&t| {
+                let tid: Vec<u16> = g.edge_type_id(&ety(t)).into_iter().collect();
+                let mut v = nb(n, out, Some(&tid));
+                // the `_of_type` visitor must see the same neighbours
+                let mut w: Vec<u64> = vec![];
+                if out { g.for_each_outgoing_neighbor_of_type(NodeId::new(n), &ety(t), |x| w.push(x.as_u64())); }
+                else { g.for_each_incoming_neighbor_of_type(NodeId::new(n), &ety(t), |x| w.push(x.as_u64())); }
+                if set_txt(w) != set_txt(v.iter().map(|x| x.0).collect()) { v.push((997, 997)); }
+                row_txt(v)
+            }).collect::<Vec<_>>().join("~")
+        }).collect::<Vec<_>>().join("/"));
+    }
+    for out in [true, false] {
+        f.push(ids.iter().map(|&n| {
+            types.iter().map(|&t| {
+                if out { g.outgoing_degree_for_type(NodeId::new(n), &ety(t)) } else { g.incoming_degree_for_type(NodeId::new(n), &ety(t)) }.to_string()
+            }).collect::<Vec<_>>().join("~")
+        }).collect::<Vec<_>>().join("/"));
+    }
+    // edges_between (edge_between must be its first element / None)
+    f.push(ids.iter().map(|&a| {
+        ids.iter().map(|&b| {
+            let mut parts = vec![];
+            for filt in [None, Some(0u8), Some(1u8)] {
+                let et = filt.map(ety);
+                let v: Vec<u64> = g.edges_between(NodeId::new(a), NodeId::new(b), et.as_ref()).iter().map(|e| e.as_u64()).collect();
+                let one = g.edge_between(NodeId::new(a), NodeId::new(b), et.as_ref()).map(|e| e.as_u64());
+                let mut v2 = v.clone();
+                match one {
+                    Some(x) if !v.contains(&x) => v2.push(996),
+                    None if !v.is_empty() => v2.push(996),
+                    _ => {}
+                }
+                parts.push(set_txt(v2));
+            }
+            parts.join("^")
+        }).collect::<Vec<_>>().join("~")
+    }).collect::<Vec<_>>().join("/"));
+    // indexes
+    f.push([0u8, 1u8].iter().map(|&l| {
+        set_txt(g.get_nodes_by_label(&lab(l)).iter().map(|n| n.id.as_u64()).collect())
+    }).collect::<Vec<_>>().join("/"));
+    f.push(types.iter().map(|&t| {
+        set_txt(g.get_edges_by_type(&ety(t)).iter().map(|e| e.id.as_u64()).collect())
+    }).collect::<Vec<_>>().join("/"));
+    // columns
+    f.push(ids.iter().map(|&n| [0u8, 1u8].iter().map(|&k| show_col(g.node_columns.get_property(n as usize, &key(k)))).collect::<Vec<_>>().join("~")).collect::<Vec<_>>().join("/"));
+    f.push(ids.iter().map(|&n| [0u8, 1u8].iter().map(|&k| show_col(g.edge_columns.get_property(n as usize, &key(k)))).collect::<Vec<_>>().join("~")).collect::<Vec<_>>().join("/"));
+    f.push(if pending { "1".into() } else { "0".into() });
+    f.join("|")
+}
+
+fn err_code(e: &GraphError) -> u32 {
+    match e {
+        GraphError::NodeNotFound(_) => 1,
+        GraphError::EdgeNotFound(_) => 2,
+        GraphError::InvalidEdgeSource(_) => 3,
+        GraphError::InvalidEdgeTarget(_) => 4,
+        _ => 8,
+    }
+}
+
+struct RealRun {
+    id_ops: String,   // the ops with handles resolved to the ids the store handed out
+    obs: String,      // one dump per op
+    id_reuses: u64,
+    panicked: bool,
+}
+
+/// run the real store; `p` = highest id probed
+fn run_real(ops: &[Op], p: u64) -> RealRun {
+    let mut g = GraphStore::new();
+    let mut nid: Vec<u64> = vec![];
+    let mut eid: Vec<u64> = vec![];
+    let mut seen_n = std::collections::HashSet::new();
+    let mut seen_e = std::collections::HashSet::new();
+    let mut sh = Shadow::default();
+    let mut id_ops = vec![];
+    let mut obs = vec![];
+    let mut reuses = 0u64;
+    let mut panicked = false;
+    for op in ops {
+        // a live handle resolves to its id; a dead handle to its last id unless that id has been
+        // handed to another (live) handle in the meantime — then to 0, which is never allocated
+        let rn = |h: &usize| -> u64 {
+            let id = nid.get(*h).copied().unwrap_or(0);
+            if sh.live_n(*h) || !(0..nid.len()).any(|h2| sh.live_n(h2) && nid[h2] == id) { id } else { 0 }
+        };
+        let re = |h: &usize| -> u64 {
+            let id = eid.get(*h).copied().unwrap_or(0);
+            if sh.live_e(*h) || !(0..eid.len()).any(|h2| sh.live_e(h2) && eid[h2] == id) { id } else { 0 }
+        };
+        let txt = match op {
+            Op::MkN(l) => format!("mkN.{}", l),
+            Op::MkNP(l, k, v) => format!("mkNP.{}.{}.{}", l, k, v),
+            Op::MkNS(l) => format!("mkNS.{}", l),
+            Op::MkE(a, b, t) => format!("mkE.{}.{}.{}", rn(a), rn(b), t),
+            Op::MkEP(a, b, t, k, v) => format!("mkEP.{}.{}.{}.{}.{}", rn(a), rn(b), t, k, v),
+            Op::MkES(a, b, t) => format!("mkES.{}.{}.{}", rn(a), rn(b), t),
+            Op::DelE(e) => format!("delE.{}", re(e)),
+            Op::DelN(n) => format!("delN.{}", rn(n)),
+            Op::AddL(n, l) => format!("addL.{}.{}", rn(n), l),
+            Op::RmL(n, l) => format!("rmL.{}.{}", rn(n), l),
+            Op::SetNP(n, k, v) => format!("setNP.{}.{}.{}", rn(n), k, v),
+            Op::RmNP(n, k) => format!("rmNP.{}.{}", rn(n), k),
+            Op::SetEP(e, k, v) => format!("setEP.{}.{}.{}", re(e), k, v),
+            Op::RmEP(e, k) => format!("rmEP.{}.{}", re(e), k),
+            Op::Compact => "compact".into(),
+            Op::Finish => "finish".into(),
+            Op::Clear => "clear".into(),
+        };
+        id_ops.push(txt);
+        let r = catch_unwind(AssertUnwindSafe(|| -> String {
+            let edge_ret = |r: Result<EdgeId, GraphError>| match r { Ok(e) => format!("i{}", e.as_u64()), Err(e) => format!("e{}", err_code(&e)) };
+            match op {
+                Op::MkN(l) => format!("i{}", g.create_node(lab(*l)).as_u64()),
+                Op::MkNS(l) => format!("i{}", g.create_node_stub(lab(*l)).as_u64()),
+                Op::MkNP(l, k, v) => {
+                    let mut m = PropertyMap::new();
+                    m.insert(key(*k), PropertyValue::Integer(*v as i64));
+                    format!("i{}", g.create_node_with_properties("default", vec![lab(*l)], m).as_u64())
+                }
+                Op::MkE(a, b, t) => edge_ret(g.create_edge(NodeId::new(rn(a)), NodeId::new(rn(b)), ety(*t))),
+                Op::MkEP(a, b, t, k, v) => {
+                    let mut m = PropertyMap::new();
+                    m.insert(key(*k), PropertyValue::Integer(*v as i64));
+                    edge_ret(g.create_edge_with_properties(NodeId::new(rn(a)), NodeId::new(rn(b)), ety(*t), m))
+                }
+                Op::MkES(a, b, t) => edge_ret(g.create_edge_stub(NodeId::new(rn(a)), NodeId::new(rn(b)), ety(*t))),
+                Op::DelE(e) => match g.delete_edge(EdgeId::new(re(e))) { Ok(_) => "ok".into(), Err(x) => format!("e{}", err_code(&x)) },
+                Op::DelN(n) => match g.delete_node("default", NodeId::new(rn(n))) { Ok(_) => "ok".into(), Err(x) => format!("e{}", err_code(&x)) },
+                Op::AddL(n, l) => match g.add_label_to_node("default", NodeId::new(rn(n)), lab(*l)) { Ok(_) => "ok".into(), Err(x) => format!("e{}", err_code(&x)) },
+                Op::RmL(n, l) => match g.remove_label_from_node(NodeId::new(rn(n)), &lab(*l)) { Ok(true) => "ok".into(), Ok(false) => "no".into(), Err(x) => format!("e{}", err_code(&x)) },
+                Op::SetNP(n, k, v) => match g.set_node_property("default", NodeId::new(rn(n)), key(*k), PropertyValue::Integer(*v as i64)) { Ok(_) => "ok".into(), Err(x) => format!("e{}", err_code(&x)) },
+                Op::RmNP(n, k) => { g.remove_node_property(NodeId::new(rn(n)), &key(*k)); "ok".into() }
+                Op::SetEP(e, k, v) => match g.set_edge_property(EdgeId::new(re(e)), key(*k), PropertyValue::Integer(*v as i64)) { Ok(_) => "ok".into(), Err(x) => format!("e{}", err_code(&x)) },
+                Op::RmEP(e, k) => { g.remove_edge_property(EdgeId::new(re(e)), &key(*k)); "ok".into() }
+                Op::Compact => { g.compact_adjacency(); "ok".into() }
+                Op::Finish => { g.finish_bulk_load(); "ok".into() }
+                Op::Clear => { g.clear(); "ok".into() }
+            }
+        }));
+        let ret = match r { Ok(s) => s, Err(_) => { panicked = true; "e7".into() } };
+        sh.apply(op);
+        match op {
+            Op::MkN(_) | Op::MkNP(..) | Op::MkNS(_) => {
+                let i = ret[1..].parse().unwrap_or(0);
+                if !seen_n.insert(i) { reuses += 1; }
+                nid.push(i);
+            }
+            Op::MkE(..) | Op::MkEP(..) | Op::MkES(..) => {
+                let i = if ret.starts_with('i') { ret[1..].parse().unwrap_or(0) } else { 0 };
+                if i != 0 && !seen_e.insert(i) { reuses += 1; }
+                eid.push(i);
+            }
+            Op::Clear => { seen_n.clear(); seen_e.clear(); }
+            _ => {}
+        }
+        let d = catch_unwind(AssertUnwindSafe(|| dump(&g, &ret, p, sh.pending)));
+        match d {
+            Ok(s) => obs.push(s),
+            Err(_) => { panicked = true; obs.push(format!("{}|panic", ret)); break; }
+        }
+        if panicked { break; }
+    }
+    id_ops.truncate(obs.len());
+    RealRun { id_ops: id_ops.join(";"), obs: obs.join(";"), id_reuses: reuses, panicked }
+}
+
+/// letters available in a shadow state (exhaustive enumeration); caps: nodes, rels created
+fn letters(sh: &Shadow, max_n: usize, max_e: usize, rich: bool) -> Vec<Op> {
+    let n = sh.nodes.len();
+    let m = sh.edges.len();
+    let mut a = vec![];
+    if n < max_n {
+        a.push(Op::MkN(0));
+        if rich { a.push(Op::MkN(1)); a.push(Op::MkNS(0)); }
+    }
+    if m < max_e {
+        for x in 0..n {
+            for y in 0..n {
+                a.push(Op::MkE(x, y, 0));
+                if rich && x <= y { a.push(Op::MkE(x, y, 1)); }
+                if rich && sh.live_n(x) && sh.live_n(y) && x <= y { a.push(Op::MkES(x, y, 0)); }
+            }
+        }
+    }
+    for e in 0..m { a.push(Op::DelE(e)); }
+    for x in 0..n { a.push(Op::DelN(x)); }
+    if rich {
+        for e in 0..m { if sh.live_e(e) { a.push(Op::SetEP(e, 0, 5)); } }
+    }
+    a.push(Op::Compact);
+    if rich { a.push(Op::Finish); }
+    a
+}
+
+fn enumerate(prefix: &[Op], depth: usize, max_n: usize, max_e: usize, rich: bool, out: &mut Vec<Vec<Op>>) {
+    let mut sh = Shadow::default();
+    for op in prefix { sh.apply(op); }
+    fn rec(cur: &mut Vec<Op>, sh: &Shadow, depth: usize, max_n: usize, max_e: usize, rich: bool, out: &mut Vec<Vec<Op>>) {
+        if depth == 0 { return; }
+        for l in letters(sh, max_n, max_e, rich) {
+            let mut s2 = sh.clone();
+            s2.apply(&l);
+            cur.push(l);
+            out.push(cur.clone());
+            rec(cur, &s2, depth - 1, max_n, max_e, rich, out);
+            cur.pop();
+        }
+    }
+    let mut cur = prefix.to_vec();
+    rec(&mut cur, &sh, depth, max_n, max_e, rich, out);
+}
+
+/// long random history biased to compact → delete → create
+fn random_history(rng: &mut Rng, len: usize, max_live_n: usize, max_live_e: usize) -> Vec<Op> {
+    let mut sh = Shadow::default();
+    let mut ops = vec![];
+    let mut hot = 0u32; // >0: just compacted, prefer deletes then creates
+    while ops.len() < len {
+        let live_n: Vec<usize> = (0..sh.nodes.len()).filter(|h| sh.live_n(*h)).collect();
+        let live_e: Vec<usize> = (0..sh.edges.len()).filter(|h| sh.live_e(*h)).collect();
+        let any_n = |rng: &mut Rng, sh: &Shadow| -> usize {
+            // mostly live handles, sometimes a dead one
+            if !live_n.is_empty() && rng.chance(9, 10) { *rng.pick(&live_n) } else { rng.usize(sh.nodes.len().max(1)) }
+        };
+        let r = rng.below(100);
+        let op = if sh.nodes.is_empty() || (live_n.len() < 2 && r < 60) {
+            match rng.below(4) { 0 => Op::MkNS(rng.below(2) as u8), 1 => Op::MkNP(rng.below(2) as u8, rng.below(2) as u8, 1 + rng.below(3) as u8), _ => Op::MkN(rng.below(2) as u8) }
+        } else if hot > 0 && r < 70 {
+            hot -= 1;
+            if hot >= 2 && !live_e.is_empty() {
+                if rng.chance(3, 4) { Op::DelE(*rng.pick(&live_e)) } else { Op::DelN(any_n(rng, &sh)) }
+            } else if live_e.len() < max_live_e {
+                let a = any_n(rng, &sh); let b = any_n(rng, &sh);
+                match rng.below(5) { 0 => Op::MkEP(a, b, rng.below(2) as u8, rng.below(2) as u8, 1 + rng.below(3) as u8), 1 => Op::MkES(a, b, rng.below(2) as u8), _ => Op::MkE(a, b, rng.below(2) as u8) }
+            } else { Op::DelE(*rng.pick(&live_e)) }
+        } else if r < 22 && live_e.len() < max_live_e {
+            let a = any_n(rng, &sh); let b = if rng.chance(1, 5) { a } else { any_n(rng, &sh) };
+            match rng.below(6) { 0 => Op::MkEP(a, b, rng.below(2) as u8, rng.below(2) as u8, 1 + rng.below(3) as u8), 1 => Op::MkES(a, b, rng.below(2) as u8), _ => Op::MkE(a, b, rng.below(2) as u8) }
+        } else if r < 32 && live_n.len() < max_live_n {
+            match rng.below(4) { 0 => Op::MkNS(rng.below(2) as u8), 1 => Op::MkNP(rng.below(2) as u8, rng.below(2) as u8, 1 + rng.below(3) as u8), _ => Op::MkN(rng.below(2) as u8) }
+        } else if r < 46 && !sh.edges.is_empty() {
+            if !live_e.is_empty() && rng.chance(9, 10) { Op::DelE(*rng.pick(&live_e)) } else { Op::DelE(rng.usize(sh.edges.len())) }
+        } else if r < 54 {
+            Op::DelN(any_n(rng, &sh))
+        } else if r < 68 {
+            hot = 3;
+            if rng.chance(1, 4) { Op::Finish } else { Op::Compact }
+        } else if r < 74 { Op::AddL(any_n(rng, &sh), rng.below(2) as u8) }
+        else if r < 80 { Op::RmL(any_n(rng, &sh), rng.below(2) as u8) }
+        else if r < 85 { Op::SetNP(any_n(rng, &sh), rng.below(2) as u8, 1 + rng.below(3) as u8) }
+        else if r < 88 { Op::RmNP(any_n(rng, &sh), rng.below(2) as u8) }
+        else if r < 95 && !live_e.is_empty() { Op::SetEP(*rng.pick(&live_e), rng.below(2) as u8, 1 + rng.below(3) as u8) }
+        else if r < 98 && !sh.edges.is_empty() { Op::RmEP(rng.usize(sh.edges.len()), rng.below(2) as u8) }
+        else if r == 99 && rng.chance(1, 10) { Op::Clear }
+        else { Op::Compact };
+        if !sh.allowed(&op) { continue; }
+        // stay inside the probe range: ids never exceed the number of simultaneously live entities
+        let creates_n = matches!(op, Op::MkN(_) | Op::MkNP(..) | Op::MkNS(_));
+        let creates_e = matches!(op, Op::MkE(..) | Op::MkEP(..) | Op::MkES(..));
+        if creates_n && sh.n_live_nodes() >= max_live_n { continue; }
+        if creates_e && sh.n_live_edges() >= max_live_e { continue; }
+        sh.apply(&op);
+        ops.push(op);
+    }
+    ops
+}
+
+fn features(ops: &[Op]) -> (Shadow, String) {
+    let mut sh = Shadow::default();
+    for op in ops { sh.apply(op); }
+    let mut f = vec![];
+    if sh.compactions > 0 { f.push("compact"); }
+    if sh.compactions > 1 { f.push("multi-segment"); }
+    if sh.frozen_deletes > 0 { f.push("frozen-delete"); }
+    if sh.stage >= 3 { f.push("create-after"); }
+    if ops.iter().any(|o| matches!(o, Op::MkES(..))) { f.push("stub"); }
+    let s = if f.is_empty() { "plain".to_string() } else { f.join("+") };
+    (sh, s)
+}
 
 fn main() {
-    // #27 compact; delete; reuse
-    let mut g = GraphStore::new();
-    let a = g.create_node("A");
-    let b = g.create_node("A");
-    let e = g.create_edge(a, b, "T").unwrap();
-    g.compact_adjacency();
-    g.delete_edge(e).unwrap();
-    println!("27a after compact+delete: edge_count={} out(a)={} between(a,b,None)={:?}", g.edge_count(), g.get_outgoing_edges(a).len(), g.edges_between(a, b, None));
-    let e2 = g.create_edge(b, a, "T").unwrap();
-    println!("27b reuse: e={:?} e2={:?} edge_count={} out(a)={:?} all_edges={}", e, e2, g.edge_count(),
-        g.get_outgoing_edges(a).iter().map(|x| (x.id, x.source, x.target)).collect::<Vec<_>>(), g.all_edges().len());
-    let mut v = vec![];
-    g.for_each_outgoing_neighbor(a, None, |n, e| v.push((n, e)));
-    println!("27c for_each_outgoing(a)={:?} deg_out(a,T)={}", v, g.outgoing_degree_for_type(a, &EdgeType::new("T")));
-    // delete_node via stale frozen row kills an unrelated edge
-    let mut g = GraphStore::new();
-    let a = g.create_node("A");
-    let b = g.create_node("A");
-    let c = g.create_node("A");
-    let e = g.create_edge(a, b, "T").unwrap();
-    g.compact_adjacency();
-    g.delete_edge(e).unwrap();
-    let e2 = g.create_edge(b, c, "T").unwrap();
-    g.delete_node("default", a).unwrap();
-    println!("27d delete_node(a) after reuse: e2={:?} has_edge(e2)={} (expected true)", e2, g.has_edge(e2));
+    let args = Args::parse();
+    let known = Known::load(&args.known, "C06");
+    let mut rep = Report::new(
+        "C06",
+        "op histories over node/relationship create (plain, with properties, stub), delete, label and property changes, \
+         compact_adjacency, finish_bulk_load, clear; after every step the whole read API is dumped for ids 0..P; \
+         non-trivial = the history compacts at least one live relationship, later deletes a frozen relationship (or a node \
+         with one), and later creates a node or relationship; distinct = distinct handle-level op sequence",
+        &args.replays,
+        args.seed,
+    );
+    let exe = args.driver_exe("drv_store");
 
-    // #28 deleted node's frozen rows inherited
-    let mut g = GraphStore::new();
-    let a = g.create_node("A");
-    let b = g.create_node("A");
-    let e = g.create_edge(a, b, "T").unwrap();
-    g.compact_adjacency();
-    g.delete_node("default", a).unwrap();
-    let a2 = g.create_node("B");
-    let c = g.create_node("A");
-    let e2 = g.create_edge(b, c, "T").unwrap();
-    println!("28 a={:?} a2={:?} e={:?} e2={:?} out(a2)={:?} edge_count={}", a, a2, e, e2,
-        g.get_outgoing_edges(a2).iter().map(|x| (x.id, x.source, x.target)).collect::<Vec<_>>(), g.edge_count());
+    // (ops, probe bound)
+    let mut cases: Vec<(Vec<Op>, u64)> = vec![];
+    let mut n_corpus = 0u64;
+    let mut files: Vec<std::path::PathBuf> = vec![];
+    if let Some(r) = &args.replay {
+        files.push(r.clone());
+    } else if let Ok(rd) = std::fs::read_dir(args.corpus.join("C06")) {
+        files = rd.filter_map(|e| e.ok().map(|e| e.path())).collect();
+        files.sort();
+    }
+    for f in &files {
+        for line in std::fs::read_to_string(f).unwrap_or_default().lines() {
+            let line = line.trim();
+            if let Some(txt) = line.strip_prefix("ops ") {
+                if let Some(ops) = parse_h(txt.trim()) {
+                    cases.push((ops, 7));
+                    n_corpus += 1;
+                }
+            }
+        }
+    }
+    rep.count_n("corpus_sequences", n_corpus);
 
-    // #29 edge_columns row not cleared
-    let mut g = GraphStore::new();
-    let a = g.create_node("A");
-    let b = g.create_node("A");
-    let e = g.create_edge(a, b, "T").unwrap();
-    g.set_edge_property(e, "w", PropertyValue::Integer(5)).unwrap();
-    g.delete_edge(e).unwrap();
-    let e2 = g.create_edge(a, b, "T").unwrap();
-    println!("29 e={:?} e2={:?} edge_columns.get(e2,w)={:?} get_edge(e2).props={:?}", e, e2,
-        g.edge_columns.get_property(e2.as_u64() as usize, "w"), g.get_edge(e2).unwrap().properties);
+    if args.replay.is_none() {
+        let th = args.thorough();
+        let before = cases.len();
+        let mut seqs: Vec<Vec<Op>> = vec![];
+        // 1. exhaustive from the empty store: full alphabet (2 labels, 2 types, stubs, finish, ≤3 nodes, ≤3 rels)
+        enumerate(&[], if th { 5 } else { 4 }, 3, 3, true, &mut seqs);
+        // 2. exhaustive suffixes after seed states, reduced alphabet (one label, one type)
+        let seeds: Vec<Vec<Op>> = vec![
+            vec![Op::MkN(0), Op::MkN(0), Op::MkE(0, 1, 0)],
+            vec![Op::MkN(0), Op::MkE(0, 0, 0)],
+            vec![Op::MkN(0), Op::MkN(1), Op::MkE(0, 1, 0), Op::MkE(0, 1, 1), Op::MkE(1, 1, 0)],
+            vec![Op::MkN(0), Op::MkN(0), Op::MkN(0), Op::MkE(0, 2, 0), Op::Compact, Op::MkE(0, 1, 0)],
+            vec![Op::MkN(0), Op::MkN(0), Op::MkES(0, 1, 0), Op::MkES(1, 0, 1)],
+        ];
+        for (k, sd) in seeds.iter().enumerate() {
+            let mut sh = Shadow::default();
+            for op in sd { sh.apply(op); }
+            let depth = if th { 5 } else { 4 };
+            let depth = if k >= 2 { depth - 1 } else { depth };
+            enumerate(sd, depth, sh.nodes.len().max(3), sh.edges.len() + 2, false, &mut seqs);
+            if th || k < 2 {
+                enumerate(sd, depth - 1, sh.nodes.len().max(3), sh.edges.len() + 2, true, &mut seqs);
+            }
+        }
+        let n_exh = seqs.len();
+        for s in seqs { cases.push((s, 6)); }
+        rep.exhaustive = true;
+        rep.exhaustive_note = format!(
+            "{} sequences: all histories of length <= {} from the empty store over the full alphabet (2 labels, 2 types, stub creates, \
+             set_edge_property, compact, finish_bulk_load; <=3 nodes, <=3 relationships incl. self-loops and parallel relationships), plus all \
+             suffixes (length <= {}) after {} seed states over the same letters; PRNG histories on top are not exhaustive",
+            n_exh, if th { 5 } else { 4 }, if th { 5 } else { 4 }, seeds.len()
+        );
+        // 3. long random histories
+        // `Rng::new(s)` and `Rng::new(s+1)` are the same SplitMix stream shifted by one draw, so
+        // consecutive seeds would explore almost the same histories: start from a mixed state
+        let mut rng = Rng::new(args.seed);
+        rng = Rng(rng.next_u64() ^ args.seed.rotate_left(17).wrapping_mul(0xD6E8_FEB8_6659_FD93));
+        let (n_rand, len_lo, len_hi) = if th { (400, 200, 2000) } else { (60, 100, 400) };
+        for _ in 0..n_rand {
+            let len = len_lo + rng.usize(len_hi - len_lo);
+            let mut r = rng.fork();
+            cases.push((random_history(&mut r, len, 4, 6), 7));
+        }
+        // and many short random ones (denser coverage of the biased pattern)
+        for _ in 0..(if th { 60_000 } else { 6_000 }) {
+            let mut r = rng.fork();
+            let len = 6 + r.usize(14);
+            cases.push((random_history(&mut r, len, 3, 4), 5));
+        }
+        if std::env::var("C06_DEBUG").is_ok() {
+            for (ops, _) in cases.iter().rev().take(5) { eprintln!("DEBUG {}", render_h(ops)); }
+        }
+        rep.count_n("generated_sequences", (cases.len() - before) as u64);
+    }
 
-    // new: two segments, binary search over concatenation
-    let mut g = GraphStore::new();
-    let a = g.create_node("A");
-    let b = g.create_node("A");
-    let c = g.create_node("A");
-    g.create_edge(a, c, "T").unwrap();
-    g.compact_adjacency();
-    g.create_edge(a, b, "T").unwrap();
-    g.compact_adjacency();
-    println!("2seg between(a,c)={:?} between(a,b)={:?} edge_between(a,c)={:?}", g.edges_between(a, c, None), g.edges_between(a, b, None), g.edge_between(a, c, None));
-    // stub then edges_between without finish (unsorted buffer)
-    let mut g = GraphStore::new();
-    let a = g.create_node("A");
-    let b = g.create_node("A");
-    let c = g.create_node("A");
-    g.create_edge_stub(a, c, "T").unwrap();
-    g.create_edge_stub(a, b, "T").unwrap();
-    println!("stub-unsorted between(a,c)={:?} between(a,b)={:?} by_type={}", g.edges_between(a, c, None), g.edges_between(a, b, None), g.get_edges_by_type(&EdgeType::new("T")).len());
-    // stub then create_edge (sorted insert into unsorted buffer) then finish
-    g.finish_bulk_load();
-    println!("after finish between(a,c)={:?} between(a,b)={:?} by_type={}", g.edges_between(a, c, None), g.edges_between(a, b, None), g.get_edges_by_type(&EdgeType::new("T")).len());
-    // remove label empties index
-    let mut g = GraphStore::new();
-    let a = g.create_node("A");
-    g.remove_label_from_node(a, &Label::new("A")).unwrap();
-    println!("labels after remove: by_label={} node labels={:?}", g.get_nodes_by_label(&Label::new("A")).len(), g.get_node(a).unwrap().labels);
-    // add duplicate label
-    g.add_label_to_node("default", a, "B").unwrap();
-    g.add_label_to_node("default", a, "B").unwrap();
-    println!("by_label(B)={}", g.get_nodes_by_label(&Label::new("B")).len());
-    let _ = NodeId::new(0);
-    // node 0 lookups
-    println!("get_node(0)={:?} out(0)={}", g.get_node(NodeId::new(0)).is_some(), g.get_outgoing_edges(NodeId::new(0)).len());
-    // delete node with self loop, order of free edge ids
-    let mut g = GraphStore::new();
-    let a = g.create_node("A");
-    let b = g.create_node("A");
-    let e1 = g.create_edge(a, a, "T").unwrap();
-    let e2 = g.create_edge(a, b, "T").unwrap();
-    let e3 = g.create_edge(b, a, "T").unwrap();
-    g.delete_node("default", a).unwrap();
-    let c = g.create_node("A");
-    let n1 = g.create_edge(b, c, "T").unwrap();
-    let n2 = g.create_edge(b, c, "T").unwrap();
-    let n3 = g.create_edge(b, c, "T").unwrap();
-    println!("selfloop: e={:?},{:?},{:?} c={:?} reuse order {:?},{:?},{:?} edge_count={}", e1, e2, e3, c, n1, n2, n3, g.edge_count());
+    let mut first_break: Option<(String, String)> = None;
+    let mut hist_feat: std::collections::BTreeMap<String, u64> = Default::default();
+    for chunk in cases.chunks(100_000) {
+        // the real store, in parallel
+        let n_thr = 12usize;
+        let per = (chunk.len() + n_thr - 1) / n_thr;
+        let mut real: Vec<RealRun> = Vec::with_capacity(chunk.len());
+        std::thread::scope(|sc| {
+            let hs: Vec<_> = chunk.chunks(per.max(1)).map(|c| sc.spawn(move || c.iter().map(|(ops, p)| run_real(ops, *p)).collect::<Vec<_>>())).collect();
+            for h in hs { real.extend(h.join().expect("real-store thread")); }
+        });
+        let lines: Vec<String> = chunk.iter().zip(real.iter()).map(|((_, p), r)| format!("chk {} {} {}", p, r.id_ops, r.obs)).collect();
+        let replies = driver::par_batch(&exe, &lines, 12);
+        for (k, (ops, p)) in chunk.iter().enumerate() {
+            let canon = render_h(ops);
+            let (sh, feat) = features(ops);
+            let nt = sh.stage >= 3;
+            rep.case(&canon, nt);
+            *hist_feat.entry(feat.clone()).or_insert(0) += 1;
+            rep.count_n("steps", ops.len() as u64);
+            rep.count_n("compactions", sh.compactions);
+            rep.count_n("frozen_deletes", sh.frozen_deletes);
+            rep.count_n("id_reuses", real[k].id_reuses);
+            for op in ops { rep.count(&format!("op:{}", kind(op))); }
+            if nt && rep.samples.len() < 3 {
+                rep.sample(json!({"ops": canon, "probe_max_id": p, "features": feat}));
+            }
+            let reply = &replies[k];
+            let body = |upto: usize| -> String {
+                let cut: Vec<Op> = ops.iter().take(upto).cloned().collect();
+                format!("ops {}\n# ids   {}\n# reply {}\n# impl  {}", render_h(&cut), real[k].id_ops, reply, real[k].obs.split(';').nth(upto.saturating_sub(1)).unwrap_or(""))
+            };
+            if real[k].panicked {
+                rep.count("panic");
+                rep.spec_violation(&known, "panic", &format!("the store panicked on `{}`", canon), &body(ops.len()));
+            } else if let Some(rest) = reply.strip_prefix("viol ") {
+                let mut it = rest.split(' ');
+                let step: usize = it.next().and_then(|x| x.parse().ok()).unwrap_or(0);
+                let why = it.next().unwrap_or("?");
+                let (_, f) = features(&ops[..(step + 1).min(ops.len())]);
+                let sig = format!("{}:{}:{}", why, kind(&ops[step.min(ops.len() - 1)]), f);
+                rep.count(&format!("spec_violation:{}", why));
+                rep.spec_violation(&known, &sig, &format!("read views disagree with the logical graph ({}) after step {} of `{}`", why, step, render_h(&ops[..(step + 1).min(ops.len())])), &body(step + 1));
+            } else if reply != "ok" {
+                rep.count("model_mismatch");
+                if first_break.is_none() {
+                    let step: usize = reply.split(' ').nth(1).and_then(|x| x.parse().ok()).unwrap_or(ops.len() - 1);
+                    first_break = Some((canon.clone(), body(step + 1)));
+                }
+            }
+        }
+    }
+    for (k, v) in hist_feat { rep.count_n(&format!("history:{}", k), v); }
+    if let Some((canon, body)) = first_break {
+        if rep.spec_violations.is_empty() {
+            rep.correspondence_break(
+                "SgModel.Store.step/obs = GraphStore writes + read API (observations after every step)",
+                &format!("model and implementation observations differ on `{}` although the specification holds on every explored case", canon),
+                &body,
+            );
+        }
+    }
+    rep.extra.insert("repr_events".into(), json!({
+        "compactions": rep.histogram.get("compactions"),
+        "frozen_deletes": rep.histogram.get("frozen_deletes"),
+        "id_reuses": rep.histogram.get("id_reuses"),
+    }));
+    rep.write(&args.out);
 }
